@@ -118,7 +118,20 @@ def run(F, rep, tier):
         ok = False
         if tr:
             ok = h.derives_from_field(tr[0].args[0], "commands") and h.derives_from_field(tr[0].args[0], "id")
-        rep.check(ok, "new_storage|id-from-init-command", "K6 provenance", "the graph id is init.commands[0].id", site=h.site())
+            # ... of the *first* command: `commands[0]`, `.first()` or the first `next()` of a forward iterator
+            og = h.origins(tr[0].args[0], through_calls="*")
+            sl, sites = h.backward_sources(tr[0].args[0].place.local, through_calls="*")
+            first = False
+            for k, c in sites:
+                if k == "call" and c.is_("Index::index") and len(c.args) > 1 and c.args[1].const is not None and c.args[1].val == 0:
+                    first = True
+                if k == "call" and c.name in ("first", "first_mut"):
+                    first = True
+            wrong = {"call:last", "call:last_mut", "call:next_back", "call:rev", "call:pop", "call:max_by_key", "call:min_by_key", "call:len"} & og
+            ok = ok and first and not wrong
+        rep.check(ok, "new_storage|id-from-init-command", "K6 provenance", "the graph id is init.commands[0].id (the first command of the init perspective)",
+                  "LinearStorageProvider::new_storage does not take the graph id from the first command of the init perspective: an init action that publishes further commands "
+                  "creates the graph under a non-init command's id and no other device can ever join it", h.site())
         ent = [c for c in h.calls if c.name == "entry"]
         se = pat.err_aggs(h, "StorageExists")
         ep = pat.err_aggs(h, "EmptyPerspective")
